@@ -44,8 +44,8 @@ CHECKS = {
     ),
     "C12": dict(
         technique="runtime monitoring: read-only traversals of the real object model in seeded order/repetition with intermediate saves; offline checker comparing the canonical part graph (by relationship path, XML C14N after removing void containers) of the traversed save with a straight open/save",
-        text="67 corpus decks + 48 (quick) / 2 000 (thorough) generated decks x 1 / 30 traversal orders x {basic accessors of the statement, + formatting readers}; ~160 distinct accessors exercised (listed in the evidence reach table); any part that appears, disappears or changes beyond the tolerated class is a violation keyed by the first differing element.",
-        note="Trusted: vlib/opcx.py; the tolerated class (void formatting containers, empty text body = absent) is spelled out in props/c12.py and DESIGN.md. Accessors documented as creating content are not in these passes.",
+        text="67 corpus decks + 48 (quick) / 2 000 (thorough) generated decks x 1 / 30 traversal orders x {basic accessors of the statement, + formatting readers}; ~160 distinct accessors exercised (listed in the evidence reach table); any part that appears, disappears or changes beyond the tolerated class is a violation keyed by the first differing element; eight accessors documented as creating content are each applied alone and may cause only their documented effect.",
+        note="Trusted: vlib/opcx.py; the tolerated class (void formatting containers, empty text body = absent) is spelled out in props/c12.py and DESIGN.md. ",
         design="§3 C12",
     ),
     "C07": dict(
